@@ -24,38 +24,42 @@ import (
 )
 
 type Engine struct {
-	repoDir        string
-	verifDir       string
-	gomodcache     string
-	goroot         string
-	modPath        string
-	tier           string
-	seed           int64
-	prog           *ssa.Program
-	pkgs           []*packages.Package
-	ssaPkgs        []*ssa.Package
-	sizes          types.Sizes
-	stats          *Stats
-	maxVisits      int
-	maxSteps       int
-	unwind         int
-	forkMinMax     bool
-	crossCheck     bool
-	workers        int
-	overlay        map[string][]byte
-	verbose        bool
-	noAccel        bool
-	noIfConv       bool
-	noSlice        bool
-	noGuess        bool
-	pinChoices     map[string]uint64
-	stop           int32
-	earlyStop      bool
-	prop           string
-	confirmed      map[string]confirmation
-	knownList      []knownFinding
-	ifConvInts     bool
-	concreteCopies bool
+	repoDir           string
+	verifDir          string
+	gomodcache        string
+	goroot            string
+	modPath           string
+	tier              string
+	seed              int64
+	prog              *ssa.Program
+	pkgs              []*packages.Package
+	ssaPkgs           []*ssa.Package
+	sizes             types.Sizes
+	stats             *Stats
+	maxVisits         int
+	maxSteps          int
+	unwind            int
+	forkMinMax        bool
+	crossCheck        bool
+	workers           int
+	overlay           map[string][]byte
+	verbose           bool
+	noAccel           bool
+	noIfConv          bool
+	noSlice           bool
+	noGuess           bool
+	pinChoices        map[string]uint64
+	stop              int32
+	samplesPerHarness int
+	okSamples         map[string][]*Violation
+	tracesValidated   int
+	tracesMismatch    []string
+	earlyStop         bool
+	prop              string
+	confirmed         map[string]confirmation
+	knownList         []knownFinding
+	ifConvInts        bool
+	concreteCopies    bool
 
 	mu          sync.Mutex
 	bounds      map[string]int64
@@ -459,6 +463,17 @@ func (e *Engine) collect(ex *Exec, h *ssa.Function, status, msg string) {
 	case "done":
 		e.pathsDone++
 		e.reached["end:"+h.Name()] = true
+		if e.samplesPerHarness > 0 && len(e.okSamples[h.Name()]) < e.samplesPerHarness && len(ex.violations) == 0 && !ex.nativeUnsupported {
+			// translator validation: a concrete input of this completed path is later run natively - it must not fail there either
+			e.mu.Unlock()
+			_, m := ex.solver.Check(ex.pc, ex.tf.True, true)
+			e.mu.Lock()
+			if m != nil && len(e.okSamples[h.Name()]) < e.samplesPerHarness {
+				v := &Violation{Harness: h.Name(), Kind: "sample", Label: fmt.Sprintf("ok-path-%d", len(e.okSamples[h.Name()])), Model: m,
+					Path: append([]int{}, ex.decs...), Choices: ex.copyChoices(), Pkg: ex.harnessPkg.Pkg.Name(), PkgDir: ex.harnessDir()}
+				e.okSamples[h.Name()] = append(e.okSamples[h.Name()], v)
+			}
+		}
 		if len(e.samples) < 6 {
 			e.samples = append(e.samples, fmt.Sprintf("%s: path %v completed, %d steps, |pc|=%d", h.Name(), compactPath(ex.decs), ex.steps, len(ex.pc)))
 		}
@@ -616,7 +631,8 @@ func (e *Engine) writeEvidence(prop string, hs []*ssa.Function, wall time.Durati
 	cov := map[string]interface{}{
 		"states":                        e.pathsDone + e.pathsEnded,
 		"transitions":                   e.decisions,
-		"traces_validated_against_impl": 0,
+		"traces_validated_against_impl": e.tracesValidated,
+		"traces_validation":             "for the first completed path(s) of each natively runnable harness a model of the path condition is run through the natively compiled harness + real code; it must end without assertion failure or panic, as the engine concluded",
 		"samples":                       samples,
 		"paths_completed":               e.pathsDone,
 		"paths_cut_by_assume":           e.pathsEnded,
@@ -667,7 +683,7 @@ func newEngine() *Engine {
 		stats: &Stats{}, maxVisits: 5000000, maxSteps: 100000000, unwind: 64, forkMinMax: true, workers: runtime.NumCPU(),
 		bounds: map[string]int64{}, obligations: map[string]*oblStat{}, inconcl: map[string]int{}, stubCache: map[string]*ssa.Function{},
 		choices: map[string]map[int]int{}, funcsRun: map[string]int{}, intrUsed: map[string]bool{}, accelLoops: map[string]bool{},
-		reached: map[string]bool{}, violations: map[string]*Violation{}, confirmed: map[string]confirmation{}, earlyStop: true}
+		reached: map[string]bool{}, violations: map[string]*Violation{}, confirmed: map[string]confirmation{}, earlyStop: true, okSamples: map[string][]*Violation{}, samplesPerHarness: 1}
 	if v := os.Getenv("VERIF_REPO"); v != "" {
 		e.repoDir = v
 	}
